@@ -400,6 +400,39 @@ class Check(Property):
                 pass
             except Exception as exc:  # noqa: BLE001
                 v.append(f"C16 probe np.add on offset units raised {type(exc).__name__}: {exc}")
+            # NumPy on the magnitudes with the implied unit (F77 - F79): reflected matrix product, searchsorted with a sorter,
+            # np.isin with bare / incompatible / mixed test elements and invert
+            try:
+                L = [[1.0, 2.0], [3.0, 4.0]]
+                M = u.Quantity(np.array([[0.0, 1.0], [0.0, 0.0]]), "meter")
+                for lbl, left in (("list", L), ("ndarray", np.array(L))):
+                    r = left @ M
+                    if not hasattr(r, "units") or str(r.units) != "meter" or not np.array_equal(r.magnitude, np.array(L) @ M.magnitude):
+                        v.append(f"C16 {lbl} @ Quantity: {L} @ {M.magnitude.tolist()} m = {r!r}; NumPy on the magnitudes gives "
+                                 f"{(np.array(L) @ M.magnitude).tolist()} m")
+                s_ = u.Quantity(np.array([3.0, 1.0, 2.0]), "meter")
+                for val in (u.Quantity(2.5, "meter"), u.Quantity(150.0, "centimeter")):
+                    got = s_.searchsorted(val, sorter=[1, 2, 0])
+                    want = np.searchsorted(s_.magnitude, val.to("meter").magnitude, sorter=[1, 2, 0])
+                    if got != want:
+                        v.append(f"C16 Quantity([3, 1, 2] m).searchsorted({val!r}, sorter=[1, 2, 0]) = {got}; NumPy on the magnitudes gives {want}")
+                pc = u.Quantity(np.array([1.0, 50.0]), "percent")
+                m2 = u.Quantity(np.array([1.0, 2.0]), "meter")
+                for lbl, fn, want in (
+                        ("np.isin([1, 50] percent, [0.5])", lambda: np.isin(pc, [0.5]), [False, True]),
+                        ("np.isin([1, 50] percent, [0.5], invert=True)", lambda: np.isin(pc, [0.5], invert=True), [True, False]),
+                        ("np.isin([1, 2] m, [1] s, invert=True)", lambda: np.isin(m2, u.Quantity(np.array([1.0]), "second"), invert=True), [True, True]),
+                        ("np.isin([1, 2] m, [1.0], invert=True)", lambda: np.isin(m2, [1.0], invert=True), [True, True]),
+                        ("np.isin([1, 2] m, [100 cm, 2, 1 s])", lambda: np.isin(m2, [u.Quantity(100.0, "centimeter"), 2, u.Quantity(1.0, "second")]), [True, False])):
+                    try:
+                        got = np.asarray(fn()).tolist()
+                    except Exception as exc:  # noqa: BLE001
+                        got = type(exc).__name__
+                    if got != want:
+                        known = " [known finding F80]" if "percent" in lbl else ""
+                        v.append(f"C16 {lbl} = {got}; membership on consistent magnitudes gives {want}{known}")
+            except Exception as exc:  # noqa: BLE001
+                v.append(f"C16 probe matmul/searchsorted/isin raised {type(exc).__name__}: {exc}")
         return v
 
     def oracle(self, c):
